@@ -1459,10 +1459,45 @@ fn c19(seed: u64, thorough: bool) -> Scenario {
 
 // ------------------------------------------------------------------------------------------ C20
 
+/// Many clean blocks with different regex-valued rules, all sync validators busy at once: whatever
+/// the validator threads share (level B runs them truly in parallel) must not leak between rules.
+fn contention_world(seed: u64) -> Scenario {
+    let mut rng = Rng::new(mix(seed, "contention"));
+    let mut g = Gen::new(&mut rng);
+    let cfg = GenCfg {
+        files: (1, 2),
+        blocks: (60, 140),
+        max_lines: 3,
+        nesting: false,
+        p_clean: 100,
+        p_sorted: 60,
+        p_unique: 60,
+        p_pattern: 60,
+        p_count: 30,
+        p_lua: 0,
+        p_ai: 0,
+        p_affects: 0,
+        severities: false,
+        wrap_langs: false,
+        rich: false,
+        p_custom_ext: 0,
+        ..Default::default()
+    };
+    g.gen_files(&cfg);
+    g.world.stdin = StdinSpec::Terminal;
+    let (world, plan) = g.finish();
+    Scenario {
+        prop: String::new(),
+        seed,
+        runs: vec![(world, plan)],
+        tags: vec!["contention".into()],
+    }
+}
+
 fn c20(seed: u64, thorough: bool) -> Scenario {
     let mut prng = Rng::new(mix(seed, "pick"));
     let sub = *prng.pick(&["C11", "C11", "C13", "C14", "C15", "C18", "C19"]);
-    let base = scenario(sub, mix(seed, "base"), thorough);
+    let base = if prng.chance(1, 12) { contention_world(mix(seed, "base")) } else { scenario(sub, mix(seed, "base"), thorough) };
     let (mut world, plan) = base.runs[0].clone();
     // an argument that spells out one file's root-relative path: what it selects must not depend on
     // whether that path also happens to exist relative to the start directory (names with glob
